@@ -163,6 +163,25 @@ def run(pid, tier, sel):
                 else:
                     rec.update(verdict="undecided", detail="verus did not decide: " + "; ".join(e["msg"] for e in other[:3]) or "rlimit/timeout")
             records.append(rec)
+        if tier == "thorough" and any(v["function"].startswith("SubTimeline::") for v in sel):
+            # bounded cross-check of the specification twin against the real code (never counted as proved)
+            st, txt = native_cache.get("status"), native_cache.get("txt")
+            if st is None:
+                st, txt = native_small_scope()
+            m = re.search(r"small-scope search: (\d+) keyframe lists, (\d+) lookups", txt or "")
+            rec = {"engine": "native", "id": "native_small_scope_search", "kind": "bounded", "function": "SubTimeline::{from_keyframes,value_at,override_start_value}",
+                   "clause": "real SubTimeline == specification twin (frames, map, value_at incl. start override) on every keyframe list in scope",
+                   "solver": "native execution", "bounded": "N<=4 keyframes over positions {0,1/4,1/2,3/4,1}, every defining subset and easing pattern, t on a 1/16 grid incl. outside [0,1]",
+                   "checks": int(m.group(1)) if m else 1, "checks_ok": 0, "solver_s": 0.0, "assumes": []}
+            if st == "agree":
+                rec.update(verdict="pass", detail=(m.group(0) if m else ""), checks_ok=rec["checks"])
+            elif st == "disagree":
+                payload = {"property": pid, "obligation": "native_small_scope_search", "kind": "native_small_scope", "native_output": txt, "native_confirmed": True}
+                rec.update(verdict="fail", detail=txt[-600:], failed_checks=["native_small_scope_search::disagreement"], native_confirmed=True,
+                           replay_file=vlib.write_replay(pid, "native_small_scope_search", payload))
+            else:
+                rec.update(verdict="undecided", detail="native search could not run: " + (txt or "")[-300:])
+            records.append(rec)
         funcs = [f for f in rep["functions"]]
         return {
             "records": records, "functions": funcs, "file_sha": vlib.sha(text), "extraction": {"edits_applied": rep["edits_applied"], "dropped": rep["dropped"], "edits_catalogue": rep["edits_catalogue"]},
